@@ -60,6 +60,32 @@ type shapeInfo struct {
 	newReq func(n int) proto.Message
 	newRes func() proto.Message
 	resN   func(m proto.Message) int
+	intPay bool // the payload field (1) of the method's messages is an int32 (else a string "m<n>")
+}
+
+// mkReq / mkRes / resEv: the client's message values for the case's pass-through mode (pass.go).
+func (info shapeInfo) mkReq(c scase, n int) proto.Message {
+	if c.Pass == "wide" {
+		return wideMsg(info.intPay, n)
+	}
+	return info.newReq(n)
+}
+
+func (info shapeInfo) mkRes(c scase) proto.Message {
+	switch c.Pass {
+	case "empty":
+		return emptyMsg()
+	case "other":
+		return otherMsg(info.intPay)
+	}
+	return info.newRes()
+}
+
+func (info shapeInfo) resEv(c scase, m proto.Message) string {
+	if c.Pass == "" {
+		return strconv.Itoa(info.resN(m))
+	}
+	return wirePayload(m, info.intPay, handlerSendsWide(c.Shape, c.Pass))
 }
 
 var shapes = map[string]shapeInfo{
@@ -67,7 +93,7 @@ var shapes = map[string]shapeInfo{
 		newReq: func(n int) proto.Message { return &testproto.UnaryRequest{Msg: word(n)} },
 		newRes: func() proto.Message { return &testproto.UnaryResponse{} },
 		resN:   func(m proto.Message) int { return unword(m.(*testproto.UnaryResponse).Msg) }},
-	"sstream": {method: svc + "ServerStream", desc: &testproto.TestApi_ServiceDesc.Streams[0],
+	"sstream": {method: svc + "ServerStream", desc: &testproto.TestApi_ServiceDesc.Streams[0], intPay: true,
 		newReq: func(n int) proto.Message { return &testproto.ServerStreamRequest{NumRes: int32(n)} },
 		newRes: func() proto.Message { return &testproto.ServerStreamResponse{} },
 		resN:   func(m proto.Message) int { return int(m.(*testproto.ServerStreamResponse).Counter) }},
@@ -175,7 +201,7 @@ func runCase(cc grpc.ClientConnInterface, srv *scripted, c scase, measureLeak bo
 	if !ok {
 		panic("bad shape " + c.Shape)
 	}
-	cl := &call{ops: parseSrv(c.Srv), fin: parseFin(c.Fin), amp: c.Amp, reuse: c.Reuse, gate: make(chan struct{}), done: make(chan struct{})}
+	cl := &call{ops: parseSrv(c.Srv), fin: parseFin(c.Fin), amp: c.Amp, reuse: c.Reuse, pass: c.Pass, shape: c.Shape, gate: make(chan struct{}), done: make(chan struct{})}
 	id := srv.register(cl)
 	defer srv.calls.Delete(id)
 	var out outcome
@@ -233,33 +259,58 @@ func runCase(cc grpc.ClientConnInterface, srv *scripted, c scase, measureLeak bo
 	started := false
 
 	if c.Shape == "unary" {
-		// Invoke = send, CloseSend, recv, Header, Trailer in one call (grpc.Header / grpc.Trailer options)
+		// Invoke = send, CloseSend, recv, Header, Trailer in one call (grpc.Header / grpc.Trailer options).
+		// With an abort op the caller's context ends while Invoke is blocked (the handler has taken the request and
+		// is parked): cancelled from the side once the handler is quiescent, or left to its deadline; the call is
+		// then made with the grpc.Header option only (script s,c,x|d,r,h).
 		var n int
+		abortOp := byte(0)
+		wantTrailer := false
 		for _, op := range cops {
-			if op.K == 's' {
+			switch op.K {
+			case 's':
 				n = op.N
+			case 'x', 'd':
+				abortOp = op.K
+			case 't':
+				wantTrailer = true
 			}
 		}
-		req := info.newReq(n)
-		res := info.newRes()
+		req := info.mkReq(c, n)
+		res := info.mkRes(c)
 		var hdr, trl metadata.MD
 		var err error
 		started = true
-		if !within(opTimeout, func() { err = cc.Invoke(ctx, info.method, req, res, grpc.Header(&hdr), grpc.Trailer(&trl)) }) {
+		opts := []grpc.CallOption{grpc.Header(&hdr)}
+		if abortOp == 0 || wantTrailer {
+			opts = append(opts, grpc.Trailer(&trl))
+		}
+		if abortOp == 'x' {
+			go func() {
+				quiesce(cl, 1, true)
+				cancel()
+			}()
+		}
+		if !within(opTimeout, func() { err = cc.Invoke(ctx, info.method, req, res, opts...) }) {
 			out.timedOut = true
 			ev("TO")
 		} else {
 			out.sentReq = append(out.sentReq, req)
 			ev("ok")
 			ev("cl")
+			if abortOp != 0 {
+				ev(string(abortOp))
+			}
 			if err != nil {
 				ev(errEvent(err))
 			} else {
-				ev("m" + strconv.Itoa(info.resN(res)))
+				ev("m" + info.resEv(c, res))
 				out.gotRes = append(out.gotRes, res)
 			}
 			ev("h" + canonMD(hdr))
-			ev("t" + canonMD(trl))
+			if abortOp == 0 || wantTrailer {
+				ev("t" + canonMD(trl))
+			}
 		}
 	} else {
 		var cs grpc.ClientStream
@@ -285,7 +336,7 @@ func runCase(cc grpc.ClientConnInterface, srv *scripted, c scase, measureLeak bo
 				fin := within(opTimeout, func() {
 					switch op.K {
 					case 's':
-						m := info.newReq(op.N)
+						m := info.mkReq(c, op.N)
 						if c.Reuse {
 							// one request object for all sends, overwritten as soon as SendMsg has returned
 							if reused == nil {
@@ -316,11 +367,11 @@ func runCase(cc grpc.ClientConnInterface, srv *scripted, c scase, measureLeak bo
 							closedSend = true
 						}
 					case 'r':
-						m := info.newRes()
+						m := info.mkRes(c)
 						if err := cs.RecvMsg(m); err != nil {
 							e = errEvent(err)
 						} else {
-							e = "m" + strconv.Itoa(info.resN(m))
+							e = "m" + info.resEv(c, m)
 							out.gotRes = append(out.gotRes, m)
 						}
 					case 'h':
@@ -338,6 +389,12 @@ func runCase(cc grpc.ClientConnInterface, srv *scripted, c scase, measureLeak bo
 						}
 						cancel()
 						e = "x"
+					case 'w':
+						select {
+						case <-cl.done:
+						case <-time.After(opTimeout / 2):
+						}
+						e = "w"
 					case 'd':
 						if time.Since(t0) > deadlineAfter/2 {
 							e = "slow" // the machine was too slow to reach this point well before the deadline
@@ -353,7 +410,9 @@ func runCase(cc grpc.ClientConnInterface, srv *scripted, c scase, measureLeak bo
 					ev("TO")
 					break loop
 				}
-				ev(e)
+				if e != "w" {
+					ev(e)
+				}
 				if e == "slow" {
 					out.skip = true
 					break loop
